@@ -8,15 +8,21 @@ LEAN_TARGETS = ["Asynkit.Props.C11", "Asynkit.Lemmas.GenEqLock"]
 PROPS_FILES = ["Asynkit/Props/C11.lean", "Asynkit/Lemmas/GenEqLock.lean"]
 DRIVERS = ["Lock"]
 TRUSTED = [
-    "Lean 4.33 kernel; axioms ⊆ {propext, Classical.choice, Quot.sound} (audited per theorem each run)",
-    "hand-written models Asynkit/Model/PrioGraph.lean (PriorityTask/PriorityLock.effective_priority as "
-    "fuel-bounded mutual recursion) and Asynkit/Model/Lock.lean (propagate_priority walk, ready-queue keys of "
-    "the priority loop), tied to src/asynkit/experimental/priority.py by trace acceptance through "
-    "lean/Drivers/Lock.lean: after every handle the real effective_priority() of every task, "
-    "_holding_locks/_waiting_on, and the class-1 ready-queue key of every runnable task equal the model's",
-    "asyncio kernel modelled, not verified (see C13); PosPriorityQueue pops the least (class, key, arrival) "
-    "entry (properties C10/C17); starvation boosting is switched off in these runs "
-    "(priority_boost_factor = 0), it is property C19",
+    'Lean 4.33 kernel; axioms ⊆ {propext, Classical.choice, Quot.sound} (audited per theorem each run)',
+    'translated, not trusted: PriorityTask/PriorityLock effective_priority and propagate_priority (mutually '
+    'recursive, with a recursion bound), _take_lock, _wake_up_first, release and the three segments of acquire '
+    'are re-translated from priority.py on every run (translator/lock2lean.py -> Gen/Lock.lean) and proved equal '
+    'to effT/effL, propT/propL and the acquire/resume/release events of Asynkit/Model/{PrioGraph,Lock}.lean '
+    '(Lemmas/GenEqLock.lean, 53 theorems)',
+    'hand-written and tied only by trace acceptance through lean/Drivers/Lock.lean (every real trace replayed: '
+    'each event enabled, each observation equal): the kernel half of Model/Lock.lean (task stepping, cancel / '
+    'throw delivery, Event) and the representation choices of Model/LockPrims.lean (locks, tasks, futures as '
+    'indices; weakrefs never die while queued; _waiters None = empty; arrival-order iteration); after every '
+    'handle the real effective_priority() of every task, _holding_locks/_waiting_on and the class-1 ready-queue '
+    "key of every runnable task must equal the model's",
+    'asyncio kernel modelled, not verified (see C13); PosPriorityQueue pops the least (class, key, arrival) entry'
+    ' (properties C10/C17); starvation boosting is switched off in these runs (priority_boost_factor = 0), it is '
+    'property C19',
 ]
 ASSUMPTIONS = [
     "locks are acquired in a fixed order, so the wait-for graph is acyclic (explicit hypothesis `Ranked` of the "
